@@ -109,6 +109,10 @@ def configs(tier):
         dict(name="fail_tensor_base_exception", sizes=[5, 5, 3], workers=2, fail_tensor=0, fail_kind="base"),
         # the shared object is an instance of a subclass of ir.Tensor that does work in tofile
         dict(name="shared_object_tensor_subclass", sizes=[3, 5], shared=[0, 0, 1], workers=2, subclass=True),
+        # lock releases are scheduling points as well: what a thread does right after leaving a critical section
+        # (publishing a counter, returning a token) can interleave with the other workers
+        dict(name="tight_budget_release_points", sizes=[5, 5, 3], workers=2, release_points=True),
+        dict(name="oversized_release_points", sizes=[9, 9], workers=2, release_points=True),
     ]
     if tier == "thorough":
         cs += [
@@ -119,6 +123,9 @@ def configs(tier):
             dict(name="shared_sharded", sizes=[5, 3], shared=[0, 1, 0, 1], workers=3, shard=8),
             dict(name="five", sizes=[2, 3, 5, 9, 2], workers=3),
             dict(name="three_shards", sizes=[5, 5, 5], workers=3, shard=5),
+            dict(name="tight_budget_three_workers_release_points", sizes=[5, 5, 3], workers=3, release_points=True),
+            dict(name="fail_tensor_release_points", sizes=[5, 5, 3], workers=2, fail_tensor=0, release_points=True),
+            dict(name="shared_object_release_points", sizes=[3, 5], shared=[0, 0, 1], workers=2, release_points=True),
         ]
     return cs
 
@@ -129,6 +136,27 @@ class _RecordingBudget(ed._ByteBudget):
     def __init__(self, capacity):
         super().__init__(capacity)
         _RecordingBudget.registry.append(self)
+        self.regular_out = 0  # reservations granted and not yet given back, as seen by the callers
+        self.oversized_out = 0
+        self.max_regular_out = 0
+        self.max_oversized_out = 0
+
+    def acquire(self, nbytes):
+        token = super().acquire(nbytes)
+        if token == -1:
+            self.oversized_out += 1
+            self.max_oversized_out = max(self.max_oversized_out, self.oversized_out)
+        else:
+            self.regular_out += token
+            self.max_regular_out = max(self.max_regular_out, self.regular_out)
+        return token
+
+    def release(self, reservation):
+        if reservation == -1:
+            self.oversized_out -= 1
+        else:
+            self.regular_out -= reservation
+        return super().release(reservation)
 
 
 def _expected_files(cfg, root):
@@ -165,6 +193,7 @@ def _make_tensors(cfg, s, mon, with_fail=True):
 def run_one(cfg, root, expected, choices):
     """One controlled execution. Returns (trace, verdict dict)."""
     s = sched.Scheduler(choices)
+    s.release_points = bool(cfg.get("release_points"))
     th, cf = sched.make_shims(s)
     mon = Monitor()
     d = os.path.join(root, "run")
@@ -235,6 +264,12 @@ def run_one(cfg, root, expected, choices):
             v.append(("callback_overlap", mon.max_cb_depth))
         if mon.max_depth > 1:
             v.append(("tensor_object_evaluated_concurrently", mon.max_depth))
+        # the budget's documented contract: regular reservations up to the capacity, at most one oversized one
+        for b in _RecordingBudget.registry:
+            if b.max_regular_out > b._capacity:
+                v.append(("regular_reservations_exceed_the_budget", (b.max_regular_out, b._capacity)))
+            if b.max_oversized_out > 1:
+                v.append(("several_oversized_reservations_at_once", b.max_oversized_out))
         if mon.max_live > BUDGET + max(cfg["sizes"]):
             v.append(("memory_bound_exceeded", (mon.max_live, BUDGET + max(cfg["sizes"]))))
     obs = {"cb_order": tuple(c[0] for c in mon.cb_calls), "blocked": s.blocked_waits, "max_live": mon.max_live,
